@@ -87,7 +87,7 @@ fn ref_object4(k: [u8; 4], bits: u64, bv: bool, c: u8) -> [u8; 59] {
     b
 }
 
-// @vt prop=C32 tier=quick bound="view over the reference encoding of {k0: number, k1: bool, k2: null, k3: string of 1 byte}: any 4 ascending 1-byte ASCII keys, any f64 bit pattern, bool and ASCII byte; get() of each key, of any absent 1-byte key, object_len, OwnedValue::jsonb_get" outside="the JSON text parser; the builder for this shape (builder half: c32_builder_*); longer keys; non-ASCII" timeout=1800 mem=16
+// @vt prop=C32 tier=quick bound="view over the reference encoding of {k0: number, k1: bool, k2: null, k3: string of 1 byte}: any 4 ascending 1-byte ASCII keys, any f64 bit pattern, bool and ASCII byte; get() of each key, of any absent 1-byte key, object_len, OwnedValue::jsonb_get" outside="the JSON text parser; the builder for this shape (builder half: c32_builder_*); longer keys; non-ASCII" timeout=1800 mem=24
 vt_proof_ascii! { unwind = 5; fn c32_view_object_4_keys() {
     let k = [any_ascii(), any_ascii(), any_ascii(), any_ascii()];
     kani::assume(k[0] < k[1] && k[1] < k[2] && k[2] < k[3]);
@@ -214,7 +214,7 @@ fn ref_object_prefix_keys(a: u8, b: u8, c: u8, d: u8, v0: bool, v2: bool) -> [u8
     buf
 }
 
-// @vt prop=C32 tier=quick bound="view over the reference encoding of a 3-member object whose first key is a proper prefix of the second: keys [a], [a,b], [c,d] (any ASCII bytes with [a,b] < [c,d]); get() of each key, of an absent 1-byte key and of an absent 2-byte key (including ones that extend or are extended by a present key)" outside="the JSON text parser; the builder for this shape; keys longer than 2 bytes; non-ASCII" timeout=1800 mem=16
+// @vt prop=C32 tier=quick bound="view over the reference encoding of a 3-member object whose first key is a proper prefix of the second: keys [a], [a,b], [c,d] (any ASCII bytes with [a,b] < [c,d]); get() of each key, of an absent 1-byte key and of an absent 2-byte key (including ones that extend or are extended by a present key)" outside="the JSON text parser; the builder for this shape; keys longer than 2 bytes; non-ASCII" timeout=1800 mem=24
 vt_proof_ascii! { unwind = 5; fn c32_view_object_prefix_keys() {
     let (a, b, c, d) = (any_ascii(), any_ascii(), any_ascii(), any_ascii());
     kani::assume(a < c || (a == c && b < d));
